@@ -130,9 +130,7 @@ def run(ctx, col: Collector):
 
     # ---------------------------------------------------------------- C05-backptr (shared with C09)
     def backptr():
-        from . import c09
-        sub = Collector(col.prop)
-        c09.run(ctx, sub)
+        sub = ctx.sub('c09', col.prop)
         n = 0
         for o in sub.obs:
             if o.rule == 'C09-backptr' and ('sets-owner' in o.construct or 'append-and-own' in o.construct or o.construct.endswith(':stores')
